@@ -141,6 +141,21 @@ func stripZ(b []byte) []byte {
 	return b
 }
 
+// dhPfx: the Go type a byte-string member of a hand-built key comes in — []byte, and at fixed slots per member (whatever
+// the seed) key.ByteStr or another named byte-slice type, which every accessor must treat alike
+var dhPfxSeq = map[string]int{}
+
+func dhPfx(member string) string {
+	dhPfxSeq[member]++
+	switch n := dhPfxSeq[member]; {
+	case n%5 == 3:
+		return "bs:"
+	case n%7 == 5:
+		return "bx:"
+	}
+	return "b:"
+}
+
 // form: 0 private, 1 private+public, 2 public uncompressed, 3 public stripped coords, 4 compressed, 5 compressed stripped x
 func (k *dhKey) tokens(r *rand.Rand, form int, extra []string) string {
 	ktyN := int64(2)
@@ -150,19 +165,19 @@ func (k *dhKey) tokens(r *rand.Rand, form int, extra []string) string {
 	// kty and crv in the Go kinds a constructed, decoded or hand-written key holds them in
 	parts := [][2]string{{"int:1", intToken(r, ktyN)}, {"int:-1", intToken(r, int64(k.crv))}}
 	if form <= 1 {
-		parts = append(parts, [2]string{"int:-4", "b:" + hx(k.d)})
+		parts = append(parts, [2]string{"int:-4", dhPfx("d") + hx(k.d)})
 	}
 	if form >= 1 {
 		x, y := k.pubX, k.pubY
 		if form == 3 || form == 5 {
 			x, y = stripZ(x), stripZ(y)
 		}
-		parts = append(parts, [2]string{"int:-2", "b:" + hx(x)})
+		parts = append(parts, [2]string{"int:-2", dhPfx("x") + hx(x)})
 		if k.crv != 4 {
 			if form >= 4 {
 				parts = append(parts, [2]string{"int:-3", map[bool]string{true: "T", false: "F"}[k.pubY[len(k.pubY)-1]&1 == 1]})
 			} else {
-				parts = append(parts, [2]string{"int:-3", "b:" + hx(y)})
+				parts = append(parts, [2]string{"int:-3", dhPfx("y") + hx(y)})
 			}
 		}
 	}
